@@ -89,3 +89,18 @@ Theorem C07_md_run_reversible :
   xv s2 = (x, map Ropp v) /\ tm s2 = t + 2 * INR N * dt.
 Proof. exact md_run_reversible. Qed.
 Print Assumptions C07_md_run_reversible.
+
+(* second order, as a theorem about the assembled MD loop on HarmonicModel's own force (one degree of freedom, frequency w,
+   k = mu w^2, any centre c): after ONE pass the position and the velocity differ from the exact flow
+   x(dt) = c + (x-c) cos(w dt) + (v/w) sin(w dt), v(dt) = v cos(w dt) - w (x-c) sin(w dt) by at most third-order terms in
+   w dt, with explicit constants, for every step with w dt <= 1 - a local error of third order is what "second-order
+   accurate" means for a one-step method (the accumulation over T/dt passes is not mechanised) *)
+Theorem C07_md_harmonic_local_error_third_order :
+  forall c mu w dt x v t,
+  0 < mu -> 0 < w -> 0 <= w * dt <= 1 ->
+  let th := w * dt in
+  exists x1 v1, md_harm_step ROps [c] [[mu * (w * w)]] [mu] dt ([x], [v], t) = ([x1], [v1], t + dt)
+    /\ Rabs (x1 - (c + (x - c) * cos th + v / w * sin th)) <= Rabs (x - c) * (th ^ 4 / 24) + Rabs (v / w) * (th ^ 3 / 6)
+    /\ Rabs (v1 - (v * cos th - w * (x - c) * sin th)) <= Rabs v * (th ^ 4 / 24) + Rabs (w * (x - c)) * (th ^ 3 / 4).
+Proof. exact harmonic_step_local_error. Qed.
+Print Assumptions C07_md_harmonic_local_error_third_order.
